@@ -43,3 +43,5 @@ def _templates(ctx):
 
 
 STRUCTURAL = (globals().get('STRUCTURAL') or []) + [_templates]
+
+VALIDATION = [validate_bs4]
